@@ -97,7 +97,7 @@ func vxPull2[K, V any](seq func(yield func(K, V) bool)) (func() (K, V, bool), fu
 }
 
 func VxC18BlockTransactionsMigration() {
-	vx.Bound("chain of 11..13 blocks (two ranges of 10): block 0 with one invoke transaction, each block of the second range with 0..1 transaction, all others empty; cancellation at the k-th database read of the first run (a sample of k) or never; resumed until completion (<= 3 runs); one schedule per path")
+	vx.Bound("chain of 11..13 blocks (two ranges of 10): block 0 with one invoke transaction, each block of the second range with 0..1 transaction, all others empty; cancellation at the k-th database read of the first run (a sample of k) or never; the resumed run cancelled at its 1st..3rd read or not at all; resumed until completion (<= 4 runs); one schedule per path")
 	if vx.InEngine() {
 		vx.Stub("(*github.com/NethermindEth/juno/migration/blocktransactions.counter).log", vxNoLog)
 		vx.Stub("iter.Pull2", vxPull2[prefix.Entry[core.Transaction], error])
@@ -128,8 +128,11 @@ func VxC18BlockTransactionsMigration() {
 		vx.Assume(false)
 	}
 	cancelAt := []int{0, 2, 9, 17, 30}[vx.Choice("cancel-at", 5)]
+	// ... and the resumed run may be interrupted as well (a second interruption can hit the pass that gives the
+	// empty tail of the chain its records)
+	cancelAt2 := []int{0, 1, 2, 3}[vx.Choice("second-run-cancel-at", 4)]
 	done := false
-	for run := 0; run < 3 && !done; run++ {
+	for run := 0; run < 4 && !done; run++ {
 		ctx, cancel := context.WithCancel(context.Background())
 		// every run is stopped by the operator after 60 reads (an uninterrupted run over this chain needs far
 		// fewer): a migration that goes round in circles shows up as "never completes", not as a hung check
@@ -137,6 +140,10 @@ func VxC18BlockTransactionsMigration() {
 		at := 60
 		if run == 0 && cancelAt > 0 {
 			at = cancelAt
+		}
+		if run == 1 && cancelAt2 > 0 {
+			at = cancelAt2
+			vx.Cover("sched:second-run-interrupted-too")
 		}
 		var store db.KeyValueStore = vxCancelDB{KeyValueStore: d, n: &n, at: at, cancel: cancel}
 		st, err := Migrator{}.Migrate(ctx, store, nil, log.NewNopZapLogger())
